@@ -19,24 +19,19 @@ TECHNIQUE = ("runtime monitoring: definite-assignment monitor over the text of e
 
 
 def classify(spec, problems):
+    """Every problem must be explained by a known finding, else None."""
+    found = []
     for p in problems:
         if p.get("kind") == "unbound-read":
-            n = p["name"]
-            if kf.kf5_unbound_level_size(spec, n):
-                continue
-            if kf.kf7_unbound_offset(spec, n):
-                continue
-            return None
+            k = kf.name_kf(spec, p["name"])
         elif p.get("kind") == "exec-error" and p.get("etype") in ("NameError", "UnboundLocalError"):
-            if kf.classify_name_error(spec, [p]) is None:
-                return None
+            k = kf.name_kf(spec, kf.name_error_name(p.get("error")))
         else:
+            k = None
+        if k is None:
             return None
-    for p in problems:
-        n = p.get("name") or kf.name_error_name(p.get("error"))
-        if kf.kf5_unbound_level_size(spec, n):
-            return "KF-5"
-    return "KF-7"
+        found.append(k)
+    return sorted(found)[0] if found else None
 
 
 def check_text(st, spec, mode, text):
